@@ -661,3 +661,6 @@ def replay(ctx, path):
                 rc = 1
     print("replay:", "still failing" if rc else "implementation, model and property agree")
     return rc
+
+
+META["level_claimed"]["text"] += (' Added: done_by_error_shows_error; on the two-step system Model/ScopePublish.lean (record, then close; any number of appenders, observers and isolated-watcher chains; all schedules) error_published_before_done, done_context_holds_error, isolated_child_never_stopped, with close_first_hides_error as the evaluated witness for the swapped order; tie_record_then_close (go/ast). Implementation-side families `publish` and `late` (errors of close-protocol listeners and tasks reach the parent blocked in Wait/Close) are sampled.')
